@@ -14,7 +14,7 @@ for p in props:
             "quick_cmd": f"scripts/check.sh {pid} quick",
             "thorough_cmd": f"scripts/check.sh {pid} thorough",
             "evidence_file": f"/verif/evidence/{pid}.json",
-            "replay_cmd_template": f"harness/target/release/vh replay {pid} {{path}}",
+            "replay_cmd_template": f"scripts/replay.sh {pid} {{path}}",
             "engine": "vh",
             "level_claimed": {"category": c["category"], "text": c["text"], "design_ref": c.get("design_ref", f"DESIGN.md section 3 / {pid}")},
             "level_note": c["note"],
